@@ -127,6 +127,11 @@ func runC18(c *core.Ctx) {
 		case 4:
 			off = time.Duration(maxOff)
 			if t.Bool() {
+				// anywhere in the last two seconds below the limit (log-uniform distance), not only the limit itself
+				kk := uint(t.Intn(31))
+				off -= time.Duration(int64(1)<<kk + int64(t.Draw(uint64(1)<<kk)))
+			}
+			if t.Bool() {
 				off = -off
 			}
 		case 5:
